@@ -16,6 +16,14 @@ impl log::Log for Capture {
         true
     }
     fn log(&self, record: &log::Record) {
+        // what the endpoint's own loggers (`log_utils`) would not write is not log output
+        if !trusttunnel::log_utils::make_stdout_logger().enabled(record.metadata()) {
+            return;
+        }
+        // the TLS *client* in this process is the harness's own
+        if record.target().starts_with("rustls::client") {
+            return;
+        }
         LINES.lock().unwrap().push(format!("[{}] {} {}", record.level(), record.target(), record.args()));
     }
     fn flush(&self) {}
@@ -68,6 +76,22 @@ fn make_core(authn: Arc<dyn Authenticator>, origin: Option<std::net::SocketAddr>
 pub fn run(ctx: &mut Ctx) {
     quiet_panics();
     let _ = log::set_boxed_logger(Box::new(Capture));
+    // ---- the filter of the endpoint's loggers vs the model (every maximum, every level, TLS-library and other targets) ----
+    {
+        use log::{Level, LevelFilter, Log};
+        let targets = ["rustls::server::hs", "rustls::conn", "rustls", "rustl", "xrustls", "rustls_pki_types", "trusttunnel::core", "trusttunnel::tls_demultiplexer", "quiche", "h2::codec", ""];
+        for (mi, m) in [LevelFilter::Off, LevelFilter::Error, LevelFilter::Warn, LevelFilter::Info, LevelFilter::Debug, LevelFilter::Trace].iter().enumerate() {
+            log::set_max_level(*m);
+            for (li, l) in [Level::Error, Level::Warn, Level::Info, Level::Debug, Level::Trace].iter().enumerate() {
+                for t in targets {
+                    let md = log::Metadata::builder().level(*l).target(t).build();
+                    let a = trusttunnel::log_utils::make_stdout_logger().enabled(&md);
+                    ctx.emit(&format!("c20 loggable {} {} {}", mi, li + 1, if t.is_empty() { "-".to_string() } else { hex(t.as_bytes()) }), if a { "1" } else { "0" });
+                    ctx.stat("logger_filter_points");
+                }
+            }
+        }
+    }
     log::set_max_level(log::LevelFilter::Trace);
 
     // ---- scrubbers vs the model ---------------------------------------------------------------------
@@ -114,10 +138,21 @@ pub fn run(ctx: &mut Ctx) {
     let mut check = |ctx: &mut Ctx, scenario: &str| {
         let lines: Vec<String> = std::mem::take(&mut *LINES.lock().unwrap());
         scenario_count += 1;
+        if let Ok(f) = std::env::var("C20_DUMP") {
+            use std::io::Write;
+            if let Ok(mut fh) = std::fs::OpenOptions::new().create(true).append(true).open(f) {
+                let _ = writeln!(fh, "=== {}", scenario);
+                for l in &lines {
+                    let _ = writeln!(fh, "{}", l.chars().take(300).collect::<String>());
+                }
+            }
+        }
         ctx.stat_add("log_lines_searched", lines.len() as u64);
         for l in &lines {
+            // (a server name reaches the endpoint lower-cased by the TLS library: the search ignores case)
+            let low = l.to_lowercase();
             for c in &canaries {
-                if l.contains(c.as_str()) {
+                if l.contains(c.as_str()) || low.contains(&c.to_lowercase()) {
                     ctx.oracle_failure("secret_in_log", &format!("scenario [{}]: canary {} in log line: {}", scenario, c, l.chars().take(300).collect::<String>()));
                 }
             }
@@ -434,6 +469,7 @@ pub fn run(ctx: &mut Ctx) {
                 })
                 .speedtest_enable(true)
                 .allow_private_network_connections(true)
+                .tls_handshake_timeout(Duration::from_millis(700))
                 .clients(vec![trusttunnel::authentication::registry_based::Client { username: "CANARYCONFUSER".into(), password: "CANARYCONFPASS".into() }])
                 .reverse_proxy(ReverseProxySettings::builder().server_address(origin).unwrap().path_mask("/rp".into()).build().unwrap());
             let hosts = TlsHostsSettings::builder()
@@ -492,6 +528,50 @@ pub fn run(ctx: &mut Ctx) {
                     std::thread::sleep(Duration::from_millis(20));
                     check(ctx, &format!("tunnel h3 (all targets, ping / speedtest / reverse-proxy requests) auth={} sni_creds={:?}", aname, sni_creds));
                     ctx.stat("h3_canary_connections");
+                }
+            }
+            // ---- TLS handshakes over TCP that fail after the hello was seen: the error paths of the accept code know the
+            // server name (credentials label included) - stalled until the handshake timeout, aborted, followed by garbage,
+            // cut in the middle of the hello
+            for label in ["CANARYSNI", "CANARYBADSNI"] {
+                for fault in ["stalls until the handshake timeout", "closes", "sends garbage", "sends half a hello and stalls", "sends half a hello and closes"] {
+                    let sni = format!("{}.localhost", label);
+                    let hello = crate::c12::rustls_hello(&sni, &[b"h2", b"http/1.1"]);
+                    if let Ok(mut c) = std::net::TcpStream::connect_timeout(&ep.addr, Duration::from_secs(2)) {
+                        let _ = c.set_read_timeout(Some(Duration::from_millis(1500)));
+                        let half = fault.starts_with("sends half");
+                        let _ = c.write_all(if half { &hello[..hello.len() * 2 / 3] } else { &hello[..] });
+                        let mut buf = [0u8; 8192];
+                        match fault {
+                            "closes" | "sends half a hello and closes" => {
+                                std::thread::sleep(Duration::from_millis(50));
+                                drop(c);
+                                std::thread::sleep(Duration::from_millis(100));
+                            }
+                            "sends garbage" => {
+                                // the server's flight first, then something that is no TLS record
+                                let _ = c.read(&mut buf);
+                                let _ = c.write_all(b"\x16\x03\x03\x00\x05hello this is not a handshake message");
+                                let _ = c.read(&mut buf);
+                                std::thread::sleep(Duration::from_millis(100));
+                            }
+                            _ => {
+                                // until the endpoint gives up (700 ms) and closes
+                                let t0 = std::time::Instant::now();
+                                while t0.elapsed() < Duration::from_millis(1500) {
+                                    match c.read(&mut buf) {
+                                        Ok(0) => break,
+                                        Ok(_) => {}
+                                        Err(e) if e.kind() == std::io::ErrorKind::WouldBlock || e.kind() == std::io::ErrorKind::TimedOut => break,
+                                        Err(_) => break,
+                                    }
+                                }
+                                std::thread::sleep(Duration::from_millis(100));
+                            }
+                        }
+                    }
+                    check(ctx, &format!("TLS handshake over TCP with SNI {}.localhost in which the client {}", label, fault));
+                    ctx.stat("failed_tls_handshakes_with_sni_credentials");
                 }
             }
             drop(ep);
